@@ -20,6 +20,7 @@ import (
 	"io"
 	"os"
 	"path/filepath"
+	"reflect"
 	"runtime"
 	"sort"
 	"strconv"
@@ -145,13 +146,55 @@ type item struct {
 	e    driver.EnrichmentRecord
 	key  string // kind + canonical JSON line
 	n    int    // length of the JSON line in the disk buffer, without newline
+	big  bool   // made to measure by one scenario (sized / sizedEnrichment)
 }
 
 type pool struct {
-	items []item
-	byKey map[string]int
-	vs    []int
-	es    []int
+	items   []item
+	byKey   map[string]int // kind + the line the store's per-update encoder writes -> token
+	byCanon map[string]int // kind + the line as a JSON value with sorted keys (no claircore decoder involved)
+	vs      []int
+	es      []int
+	written map[string]string
+	diffs   []string // field-level differences between loaded and recorded records, for the witness
+	seen    map[string]bool
+}
+
+func (p *pool) noteDiff(s string) {
+	for _, d := range p.diffs {
+		if d == s {
+			return
+		}
+	}
+	if len(p.diffs) < 6 {
+		p.diffs = append(p.diffs, s)
+	}
+}
+
+// closest finds the recorded record of the kind that differs from the loaded
+// one in the fewest places, and notes the differences.
+func (p *pool) closest(kind byte, loaded any) {
+	best, bestN := -1, 1<<30
+	var bestDiff []string
+	for t, it := range p.items {
+		if it.kind != kind || it.big {
+			continue
+		}
+		var d []string
+		if kind == 'v' {
+			d = diffRecords(it.v, loaded)
+		} else {
+			d = diffRecords(it.e, loaded)
+		}
+		if len(d) < bestN {
+			best, bestN, bestDiff = t, len(d), d
+		}
+	}
+	if best < 0 {
+		p.noteDiff("a loaded record matches no recorded record")
+		return
+	}
+	p.noteDiff(fmt.Sprintf("loaded record differs from recorded record %d: %s", best, strings.Join(bestDiff, "; ")))
 }
 
 // encLine is the line the store's per-update encoder writes for a record.
@@ -177,103 +220,33 @@ func genStr(rnd *hx.Rand, max int) string {
 	return sb.String()
 }
 
-func genVuln(rnd *hx.Rand, i int) *claircore.Vulnerability {
-	v := &claircore.Vulnerability{
-		ID:             strconv.Itoa(rnd.Intn(1000)),
-		Updater:        rnd.Pick("rhel", "debian", "osv", "", genStr(rnd, 6)),
-		Name:           fmt.Sprintf("CVE-%d-%04d", 2000+rnd.Intn(30), i),
-		Description:    genStr(rnd, 40),
-		Links:          rnd.Pick("", "https://example.com/a https://example.com/b", genStr(rnd, 10)),
-		Severity:       rnd.Pick("", "Low", "moderate", "CVSS:3.1/AV:N", genStr(rnd, 5)),
-		FixedInVersion: rnd.Pick("", "1.0.0-1", "0:2.3-4.el8", genStr(rnd, 8)),
-	}
-	if rnd.Chance(2, 3) {
-		v.Issued = time.Unix(int64(rnd.Intn(2000000000)), int64(rnd.Intn(1000000000))).UTC()
-	}
-	v.NormalizedSeverity = claircore.Severity(rnd.Intn(6))
-	if rnd.Chance(3, 4) {
-		v.Package = &claircore.Package{Name: rnd.Pick("openssl", "glibc", genStr(rnd, 8)), Version: genStr(rnd, 6), Kind: rnd.Pick("", "binary", "source"),
-			Arch: rnd.Pick("", "x86_64", "noarch"), Module: rnd.Pick("", "nodejs:12")}
-		if rnd.Chance(1, 4) {
-			v.Package.Source = &claircore.Package{Name: genStr(rnd, 6), Version: "1", Kind: "source"}
-		}
-	}
-	if rnd.Chance(1, 2) {
-		v.Dist = &claircore.Distribution{DID: rnd.Pick("rhel", "debian", "alpine"), Name: genStr(rnd, 8), Version: rnd.Pick("8", "12", ""), VersionID: rnd.Pick("", "8.4"),
-			VersionCodeName: rnd.Pick("", "bookworm"), PrettyName: genStr(rnd, 12), Arch: rnd.Pick("", "x86_64")}
-	}
-	if rnd.Chance(1, 3) {
-		v.Repo = &claircore.Repository{Name: genStr(rnd, 8), Key: rnd.Pick("", "rhel-cpe-repository"), URI: rnd.Pick("", "https://repo.example/x?y=<z>&w")}
-	}
-	if rnd.Chance(1, 4) {
-		v.ArchOperation = claircore.ArchOp(rnd.Intn(4))
-	}
-	return v
-}
-
-func genEnrichment(rnd *hx.Rand, i int) driver.EnrichmentRecord {
-	var e driver.EnrichmentRecord
-	nt := rnd.Intn(4)
-	for j := 0; j < nt; j++ {
-		e.Tags = append(e.Tags, rnd.Pick(fmt.Sprintf("CVE-2024-%04d", i), "tag", genStr(rnd, 6)))
-	}
-	switch rnd.Intn(5) {
-	case 0:
-		e.Enrichment = json.RawMessage(fmt.Sprintf(`{"i":%d}`, i))
-	case 1:
-		b, _ := json.Marshal(map[string]any{"score": rnd.Intn(100), "vector": genStr(rnd, 12), "n": i})
-		e.Enrichment = b
-	case 2:
-		e.Enrichment = json.RawMessage(fmt.Sprintf(`[%d,"<x>&",null,true,{"a":[]}]`, i))
-	case 3:
-		b, _ := json.Marshal(genStr(rnd, 20) + strconv.Itoa(i))
-		e.Enrichment = b
-	default:
-		e.Enrichment = json.RawMessage(strconv.Itoa(i))
-	}
-	return e
-}
-
-// add registers a record if its JSON form is stable under one more
-// decode/encode (records whose JSON form is not are property C17's subject).
+// add registers a record under the line the store's per-update encoder writes
+// for it. Nothing is filtered: whether the record survives Store and Load is
+// what is being checked.
 func (p *pool) add(it item) (int, bool) {
 	var line string
 	var err error
 	if it.kind == 'v' {
 		line, err = encLine(it.v)
-		if err == nil {
-			var back claircore.Vulnerability
-			if json.Unmarshal([]byte(line), &back) != nil {
-				return 0, false
-			}
-			if l2, err := encLine(&back); err != nil || l2 != line {
-				return 0, false
-			}
-		}
 	} else {
 		line, err = encLine(it.e)
-		if err == nil {
-			var back driver.EnrichmentRecord
-			if json.Unmarshal([]byte(line), &back) != nil {
-				return 0, false
-			}
-			if l2, err := encLine(back); err != nil || l2 != line {
-				return 0, false
-			}
-		}
 	}
 	if err != nil {
 		return 0, false
 	}
 	it.key = string(it.kind) + line
 	it.n = len(line)
+	it.big = it.n > 4096 && strings.Contains(line, "BIG-")
 	if t, ok := p.byKey[it.key]; ok {
 		return t, true
 	}
 	t := len(p.items)
 	p.items = append(p.items, it)
 	p.byKey[it.key] = t
-	if it.n > 4096 {
+	if c, ok := canonJSON([]byte(line)); ok {
+		p.byCanon[string(it.kind)+c] = t
+	}
+	if it.big {
 		// sized records are used only by the scenario that made them
 		return t, true
 	}
@@ -285,18 +258,42 @@ func (p *pool) add(it item) (int, bool) {
 	return t, true
 }
 
+// newPool builds the records by reflection over the two record types: for
+// k = 0..15 a record with every pointer set and every enum at its k-th member,
+// the zero value, the "empty" value, then random ones.
 func newPool(rnd *hx.Rand, n int, r *hx.Run) *pool {
-	p := &pool{byKey: map[string]int{}}
-	for i := 0; len(p.items) < n && i < 4*n; i++ {
+	p := &pool{byKey: map[string]int{}, byCanon: map[string]int{}, seen: map[string]bool{}}
+	tv, te := reflect.TypeOf(claircore.Vulnerability{}), reflect.TypeOf(driver.EnrichmentRecord{})
+	mk := func(g *recGen, kind byte) {
+		g.seen = p.seen
 		var ok bool
-		if i%2 == 0 {
-			_, ok = p.add(item{kind: 'v', v: genVuln(rnd, i)})
+		if kind == 'v' {
+			v := g.value(tv, 0).Interface().(claircore.Vulnerability)
+			_, ok = p.add(item{kind: 'v', v: &v})
 		} else {
-			_, ok = p.add(item{kind: 'e', e: genEnrichment(rnd, i)})
+			e := g.value(te, 0).Interface().(driver.EnrichmentRecord)
+			_, ok = p.add(item{kind: 'e', e: e})
 		}
 		if !ok {
-			r.Count("gen:record-json-not-stable-skipped")
+			r.Count("gen:record-does-not-encode")
 		}
+	}
+	for _, kind := range []byte{'v', 'e'} {
+		for k := 0; k < 16; k++ {
+			mk(&recGen{rnd: rnd, mode: modeFull, k: k}, kind)
+		}
+		mk(&recGen{rnd: rnd, mode: modeZero}, kind)
+		mk(&recGen{rnd: rnd, mode: modeEmpty}, kind)
+	}
+	for i := 0; len(p.items) < n && i < 4*n; i++ {
+		kind := byte('v')
+		if i%2 == 1 {
+			kind = 'e'
+		}
+		mk(&recGen{rnd: rnd, mode: modeRandom}, kind)
+	}
+	for _, k := range sortedKeys(p.seen) {
+		r.Count("pool:" + k)
 	}
 	return p
 }
@@ -325,29 +322,92 @@ func (p *pool) sizedEnrichment(n int, tag int) int {
 	return t
 }
 
+// tokOfVuln names the recorded vulnerability a loaded one is: the re-encoded
+// line is the index, the decision is the field-by-field comparison of the
+// decoded value with the recorded value.
 func (p *pool) tokOfVuln(v *claircore.Vulnerability) string {
 	if v == nil {
 		return "nil"
 	}
-	line, err := encLine(v)
-	if err != nil {
-		return "?"
+	if line, err := encLine(v); err == nil {
+		if t, ok := p.byKey["v"+line]; ok {
+			d := diffRecords(p.items[t].v, v)
+			if len(d) == 0 {
+				return strconv.Itoa(t)
+			}
+			p.noteDiff(fmt.Sprintf("loaded record re-encodes like recorded record %d but differs from it: %s", t, strings.Join(d, "; ")))
+			return "?"
+		}
 	}
-	if t, ok := p.byKey["v"+line]; ok {
-		return strconv.Itoa(t)
-	}
+	p.closest('v', v)
 	return "?"
 }
 
 func (p *pool) tokOfEnrichment(e driver.EnrichmentRecord) string {
-	line, err := encLine(e)
+	if line, err := encLine(e); err == nil {
+		if t, ok := p.byKey["e"+line]; ok {
+			d := diffRecords(p.items[t].e, e)
+			if len(d) == 0 {
+				return strconv.Itoa(t)
+			}
+			p.noteDiff(fmt.Sprintf("loaded record re-encodes like recorded record %d but differs from it: %s", t, strings.Join(d, "; ")))
+			return "?"
+		}
+	}
+	// white space inside a RawMessage is not kept: look the value up
+	if line, err := encLine(e); err == nil {
+		if c, ok := canonJSON([]byte(line)); ok {
+			if t, ok := p.byCanon["e"+c]; ok && len(diffRecords(p.items[t].e, e)) == 0 {
+				return strconv.Itoa(t)
+			}
+		}
+	}
+	p.closest('e', e)
+	return "?"
+}
+
+// tokByLine is the index lookup alone (the later looks at an entry).
+func (p *pool) tokByLine(kind byte, rec any) string {
+	if v, ok := rec.(*claircore.Vulnerability); ok && v == nil {
+		return "nil"
+	}
+	line, err := encLine(rec)
 	if err != nil {
 		return "?"
 	}
-	if t, ok := p.byKey["e"+line]; ok {
+	if t, ok := p.byKey[string(kind)+line]; ok {
 		return strconv.Itoa(t)
 	}
+	if kind == 'e' {
+		if c, ok := canonJSON([]byte(line)); ok {
+			if t, ok := p.byCanon["e"+c]; ok {
+				return strconv.Itoa(t)
+			}
+		}
+	}
 	return "?"
+}
+
+// tokOfWritten names the recorded record whose line a written payload is, by
+// its JSON value alone.
+func (p *pool) tokOfWritten(kind byte, payload []byte) string {
+	if p.written == nil {
+		p.written = map[string]string{}
+	}
+	mk := string(kind) + string(payload) // exact bytes: a payload written differently is looked up afresh
+	if tok, ok := p.written[mk]; ok {
+		return tok
+	}
+	tok := "?"
+	if c, ok := canonJSON(payload); ok {
+		if t, ok := p.byCanon[string(kind)+c]; ok {
+			tok = strconv.Itoa(t)
+		}
+	}
+	if len(p.written) < 1<<16 {
+		p.written[mk] = tok
+	}
+	return tok
 }
 
 // ---------------------------------------------------------------------------
@@ -424,6 +484,7 @@ func newWorld(r *hx.Run, p *pool) *world {
 		panic(err)
 	}
 	w := &world{r: r, p: p, st: st, src: &uuidSrc{}, live: map[uint64]*update{}, damage: map[uint64]int{}, writerLimit: -1}
+	p.diffs = nil
 	uuid.SetRand(w.src)
 	r.Op("reset", "ok", false)
 	return w
@@ -645,17 +706,16 @@ func (w *world) parseWritten(b []byte) (lines []string, refs []uint64) {
 		case string(driver.VulnerabilityKind):
 			k = "v"
 			tok = "?"
-			// the payload is identified by its decoded value, not by its bytes
-			var v claircore.Vulnerability
-			if d.Enrichment == nil && d.Vuln != nil && json.Unmarshal(d.Vuln, &v) == nil {
-				tok = w.p.tokOfVuln(&v)
+			// the payload is identified by its JSON value (not by its bytes, and
+			// not through claircore's decoders)
+			if d.Enrichment == nil && d.Vuln != nil {
+				tok = w.p.tokOfWritten('v', d.Vuln)
 			}
 		case string(driver.EnrichmentKind):
 			k = "e"
 			tok = "?"
-			var e driver.EnrichmentRecord
-			if d.Vuln == nil && d.Enrichment != nil && json.Unmarshal(d.Enrichment, &e) == nil {
-				tok = w.p.tokOfEnrichment(e)
+			if d.Vuln == nil && d.Enrichment != nil {
+				tok = w.p.tokOfWritten('e', d.Enrichment)
 			}
 		}
 		c := canon(d.Ref)
@@ -964,13 +1024,25 @@ func (w *world) runLoader(b []byte) (string, []loaded, string) {
 		first string
 	}
 	var keep []kept
+	// deep: every record is compared field by field with the recorded one (the
+	// first look); the later looks only have to notice a change, for which the
+	// re-encoded line is enough.
+	deep := true
 	view := func(updater, fp string, vs []*claircore.Vulnerability, es []driver.EnrichmentRecord) (loaded, string) {
 		ld := loaded{updater: updater, fp: fp}
 		for _, v := range vs {
-			ld.v = append(ld.v, w.p.tokOfVuln(v))
+			if deep {
+				ld.v = append(ld.v, w.p.tokOfVuln(v))
+			} else {
+				ld.v = append(ld.v, w.p.tokByLine('v', v))
+			}
 		}
 		for _, e := range es {
-			ld.e = append(ld.e, w.p.tokOfEnrichment(e))
+			if deep {
+				ld.e = append(ld.e, w.p.tokOfEnrichment(e))
+			} else {
+				ld.e = append(ld.e, w.p.tokByLine('e', e))
+			}
 		}
 		// a slice no record was appended to is nil in the code as it stands;
 		// a non-nil empty one is shown as [] (OfflineImport tests `!= nil`)
@@ -1018,9 +1090,13 @@ func (w *world) runLoader(b []byte) (string, []loaded, string) {
 			}
 		}
 	}
+	deep = false
 	for i, k := range keep {
 		if w.loaderProblem != "" {
 			break
+		}
+		if strings.Contains(k.first, "?") {
+			continue // already reported as a record that differs from the recorded one
 		}
 		if _, again := view(k.ent.Updater, string(k.ent.Fingerprint), k.ent.Vuln, k.ent.Enrichment); again != k.first {
 			w.loaderProblem = fmt.Sprintf("entry %d was %s when Next reported it and is %s after the iteration (the *Entry was modified by later Next calls)", i, k.first, again)
@@ -1089,7 +1165,11 @@ func (w *world) cutLoad(frac int) {
 }
 
 func (w *world) witness() string {
-	return "history=[" + strings.Join(w.hist, " ") + "]"
+	s := "history=[" + strings.Join(w.hist, " ") + "]"
+	if len(w.p.diffs) > 0 {
+		s = "FIELDS: " + strings.Join(w.p.diffs, " | ") + " -- " + s
+	}
+	return s
 }
 
 // load runs the loader over everything written so far and, when every
